@@ -77,6 +77,47 @@ func (ls *LState) VerifSnapshot() VerifSnap {
 	return s
 }
 
+// VerifCurrent returns the call depth, the register top and a copy of the topmost frame.
+func (ls *LState) VerifCurrent() (int, int, VerifFrame, bool) {
+	sp := ls.stack.Sp()
+	if sp == 0 {
+		return 0, ls.reg.top, VerifFrame{}, false
+	}
+	cf := ls.stack.At(sp - 1)
+	f := VerifFrame{Idx: cf.Idx, Base: cf.Base, LocalBase: cf.LocalBase, ReturnBase: cf.ReturnBase,
+		NArgs: cf.NArgs, NRet: cf.NRet, TailCall: cf.TailCall, Pc: cf.Pc}
+	if cf.Fn != nil {
+		f.IsG = cf.Fn.IsG
+		f.Proto = cf.Fn.Proto
+	}
+	return sp, ls.reg.top, f, true
+}
+
+// VerifRegs copies the registers [from, to) of ls; slots outside the allocated
+// array or never written come back as Go nil.
+func (ls *LState) VerifRegs(from, to int) []LValue {
+	out := make([]LValue, 0, to-from)
+	for i := from; i < to; i++ {
+		if i >= 0 && i < len(ls.reg.array) {
+			out = append(out, ls.reg.array[i])
+		} else {
+			out = append(out, nil)
+		}
+	}
+	return out
+}
+
+// VerifOpenUpvalueIndexes lists the registers of ls that open upvalues point at.
+func (ls *LState) VerifOpenUpvalueIndexes() []int {
+	var out []int
+	for uv := ls.uvcache; uv != nil; uv = uv.next {
+		if !uv.closed {
+			out = append(out, uv.index)
+		}
+	}
+	return out
+}
+
 // VerifStringConstants exposes the unexported string-constant table of a prototype.
 func (fp *FunctionProto) VerifStringConstants() []string { return fp.stringConstants }
 
